@@ -126,15 +126,21 @@ Proof.
   replace (0*0 - 4*1*(0*(Rc*Rc) - 2*Rc*Rc + 0*0 + 0*0 + Rc*Rc)) with ((2*Rabs Rc)*(2*Rabs Rc)).
   2:{ transitivity (4*(Rabs Rc * Rabs Rc)); [ring|]. rewrite <- Rabs_mult, (Rabs_right (Rc*Rc)); [ring|nra]. }
   assert (Ha : 0 < Rabs Rc) by (apply Rabs_pos_lt; assumption).
-  unfold Reqb. destruct (Req_EM_T 1 0) as [E|_]; [lra|].
+  unfold Reqb, Rltb. destruct (Req_EM_T 1 0) as [E|_]; [lra|].
+  destruct (Rlt_dec 0 0) as [E|_]; [lra|].
   cbn [xsqrt]. destruct (Rlt_dec (2*Rabs Rc*(2*Rabs Rc)) 0) as [E|_]; [nra|].
   rewrite sqrt_square by lra.
-  cbn [xneg xadd xsub xdiv]. destruct (Req_EM_T (2*1) 0) as [E|_]; [lra|].
-  replace ((-0 + 2*Rabs Rc)/(2*1)) with (Rabs Rc) by field.
-  replace ((-0 + - (2*Rabs Rc))/(2*1)) with (- Rabs Rc) by field.
+  cbn [xmul xadd]. 
+  replace (- / 2 * (0 + 1 * (2 * Rabs Rc))) with (- Rabs Rc) by field.
+  cbn [xeqb]. unfold Reqb. destruct (Req_EM_T (- Rabs Rc) 0) as [E|_]; [lra|].
+  cbn [xdiv]. destruct (Req_EM_T 1 0) as [E|_]; [lra|]. destruct (Req_EM_T (- Rabs Rc) 0) as [E|_]; [lra|].
+  replace (- Rabs Rc / 1) with (- Rabs Rc) by field.
+  replace ((0*(Rc*Rc) - 2*Rc*Rc + 0*0 + 0*0 + Rc*Rc) / - Rabs Rc) with (Rabs Rc).
+  2:{ transitivity ((Rabs Rc * Rabs Rc) / Rabs Rc); [field; lra|].
+      rewrite <- Rabs_mult, (Rabs_right (Rc*Rc)) by nra. field. lra. }
   cbn [xltb]. unfold Rltb.
-  destruct (Rlt_dec (Rabs Rc) 0) as [E|_]; [lra|].
   destruct (Rlt_dec (- Rabs Rc) 0) as [_|E]; [|lra].
+  destruct (Rlt_dec (Rabs Rc) 0) as [E|_]; [lra|].
   cbn [xmul xadd]. destruct (Rlt_dec 0 N) as [HN1|HN1].
   - cbn [xadd xabs xleb]. reflexivity.
   - destruct (Rlt_dec N 0) as [HN2|HN2]; [|lra]. cbn [xadd xabs xleb]. reflexivity.
